@@ -206,6 +206,11 @@ fn all_kind_samples(rng: &mut Rng, addrs: &[u16]) -> Vec<String> {
             v.push(format!("SD.{}.{}", a, hex_of_bytes(&rng.bytes(len))));
         }
         v.push(format!("UN.{}.9.0102", a));
+        // unknown frames of every wire type the protocol uses, incl. ones that only miss being a known message by
+        // their length or code, and frames wrapping a known message's exact bytes: no reply is due for any of them
+        for (t, d) in [(2u8, "-"), (2, "01"), (2, "FF00"), (2, "FF"), (2, "00"), (3, "A3"), (3, "-"), (3, "A1"), (3, "A1A2"), (4, "99"), (5, "95"), (0, "0102"), (1, "-"), (6, "01")] {
+            v.push(format!("UN.{}.{}.{}", a, t, d));
+        }
     }
     v
 }
@@ -480,7 +485,7 @@ fn gen_c18(ctx: &mut Ctx) {
     let a = 3u16;
     let mut cases: Vec<(String, Vec<u8>)> = vec![];
     // every message kind; reply tapes: every state, every ack
-    for m in ["PC.3", "GB.3", "DC.2", "RS.3.PLP", "AO.3.RCF", "UN.3.9.01"] {
+    for m in ["PC.3", "GB.3", "DC.2", "RS.3.PLP", "AO.3.RCF", "UN.3.9.01", "UN.3.2.01", "UN.3.3.A3"] {
         cases.push((m.to_string(), vec![]));
     }
     for len in [0usize, 1, 16] {
